@@ -168,3 +168,21 @@ package callbacks
 //@ immutable Statement.SkipHooks
 //@   writers gorm.(*DB).Session gorm.(*DB).getInstance gorm.(*Statement).clone gorm.(*DB).UpdateColumn gorm.(*DB).UpdateColumns gorm.(*DB).*
 //@   tags C10 C13
+
+//@ # ---------- C03: every VALUES cell of a struct/slice Create is the record's own reading of the field ----------
+//@ # A cell is filled either with what field.ValueOf just read from the record (and the record has not been
+//@ # written since), or with the field's declared default that is written to the record by the next statement.
+//@ ghost lastReadTag lastReadBox recordWritten
+//@ event calldyn Field.ValueOf
+//@   in callbacks.ConvertToCreateValues
+//@   do lastReadTag = tagof(result0)
+//@   do lastReadBox = boxof(result0)
+//@   do recordWritten = 0
+//@ event calldyn Field.Set
+//@   in callbacks.ConvertToCreateValues
+//@   do recordWritten = 1
+//@ site create-cell-holds-record-value
+//@   match storeelem interface{}
+//@   in callbacks.ConvertToCreateValues
+//@   min-sites 9
+//@   assert cell-is-current-reading-or-declared-default: (recordWritten == 0 && tagof(arg0) == lastReadTag && boxof(arg0) == lastReadBox) || (field.DefaultValueInterface != nil && arg0 == field.DefaultValueInterface) [C03]
